@@ -319,6 +319,12 @@ func c09Check(c *Ctx, cs c09Case) *Failure {
 	if customMarshalled(p) {
 		c.NonTrivial(jsonKey(cs), map[string]any{"doc": cs.Doc, "opts": cs.Opts, "json": cs.JSON})
 	}
+	if len(cs.Doc)%2 == 0 {
+		// an earlier rendering made with other options leaves nothing behind
+		c.Label("rendered-with-secret-content-first")
+		_, _ = p.MarshalYAML(types.WithSecretContent)
+		_, _ = p.MarshalJSON(types.WithSecretContent)
+	}
 	form := "yaml"
 	var out []byte
 	if cs.JSON {
